@@ -3,6 +3,7 @@ package props
 import (
 	"bytes"
 	"fmt"
+	"strings"
 
 	"verif/core"
 	"verif/ref"
@@ -44,6 +45,20 @@ func c04Streams(level int) []Stream {
 	for _, s := range readerStreams(level) {
 		if s.Fmt == "xz" && s.ValidCuts == nil {
 			out = append(out, s)
+		}
+	}
+	if level > 0 {
+		// liblzma / xz-utils written streams from the frozen corpus (single stream, with a check)
+		n := 0
+		for _, e := range bindRef(nil) {
+			if e.Kind != "xz" || len(e.Data) > 260 || len(e.Data) < 40 || strings.HasPrefix(e.File, "multi") || strings.Contains(e.File, "-none-") {
+				continue
+			}
+			n++
+			if n%3 != 0 {
+				continue
+			}
+			out = append(out, Stream{Name: "corpus:" + e.File, Fmt: "xz", Data: e.Data, Plain: e.Plain, Writer: "liblzma"})
 		}
 	}
 	return out
